@@ -53,10 +53,27 @@ def mk_queue(case):
         raise KeyError(p)
     q.set_t0(case.get('t0', 0) / fs)
     keys = []
+    fill = case.get('fill', 'append')
+    args = []
     for k, st in enumerate(case['stims']):
         d = st['delays']
         delays = [x / fs for x in d] if isinstance(d, list) else d / fs
-        keys.append(q.append(mk_source(st, k, fs), st['trials'], delays))
+        args.append((mk_source(st, k, fs), st['trials'], delays))
+    if fill == 'append':
+        for a in args:
+            keys.append(q.append(*a))
+    else:
+        # extend() takes parallel sequences; 'mixed' appends the first stimulus and extends with the rest
+        head = 1 if (fill == 'mixed' and len(args) > 1) else 0
+        for a in args[:head]:
+            keys.append(q.append(*a))
+        rest = args[head:]
+        if rest:
+            if all(not isinstance(a[2], list) for a in rest):
+                keys += q.extend([a[0] for a in rest], [a[1] for a in rest], [a[2] for a in rest])
+            else:
+                for a in rest:        # per-trial delay lists cannot be told apart from the parallel-sequence form
+                    keys.append(q.append(*a))
     return q, keys
 
 
@@ -97,8 +114,12 @@ def run_impl(case):
                 'remaining': [int(q.remaining_trials(k)) for k in keys]}
 
     out = []
-    for o in case['ops']:
+    for n_op, o in enumerate(case['ops']):
         del events[:]
+        if case['pol'] != 'random' and case.get('disturb', True):
+            # nothing but RandomSignalQueue may depend on the global NumPy random state
+            np.random.seed(1000 + n_op)
+            np.random.uniform(size=3)
         if o[0] == 'pop':
             try:
                 w = q.pop_buffer(o[1])
